@@ -14,7 +14,7 @@ PROPS = {
              'single-octet mutations of their encodings, every truncation of a rich OPEN, data lengths 0..64 and 4074..4076, a <20% random stream; '
              'distinct = distinct (function, input) pairs; non-trivial = the model took a branch other than the first length check',
     ),
-    'C08': dict(title='Receive-side header validation and stream framing', l0=True, live=True, lean=['CoreBGP.Props.C08', 'CoreBGP.Props.PathTieC08', 'CoreBGP.Props.DecTieC08'],
+    'C08': dict(title='Receive-side header validation and stream framing', l0=True, live=True, race_quick=['C04R'], lean=['CoreBGP.Props.C08', 'CoreBGP.Props.PathTieC08', 'CoreBGP.Props.DecTieC08'],
         trivial=[r'^read/m0\.other$'], rule='L0 differential on the reader goroutine over in-memory connections with varying segmentations: header length values (quick: protocol-relevant sample + 400 random; thorough: all 65536) x types, all 256 types x boundary lengths, every marker position, every truncation; NOTIFICATION encodings; non-trivial = reader got past the first short read'),
     'C14': dict(title='The OPEN corebgp sends reflects configuration and plugin capabilities', l0=True, live=True, lean=['CoreBGP.Props.C14', 'CoreBGP.Props.PathTieConn'],
         rule='L0 differential on newOpenMessage+encode: AS grid incl. 65535/65536/2^32-1, hold times, capability lists 0..40 with codes 0..255 incl. 65, value lengths 0..300, sweeps across every 255-byte length-octet boundary'),
@@ -35,16 +35,16 @@ PROPS = {
         rule='exhaustive error histories up to length 4 (thorough 5) over the gap alphabet {0,1,10,100,299,300,301,1000 s} and random long ones through the real updateStartupDelay; every NOTIFICATION code 0..255 x sent/received x wrapped/bare through the real handleError'),
     'C05': dict(title='No remote input or API sequence can crash or wedge the process', l0=True, live=True, lean=['CoreBGP.Props.C05', 'CoreBGP.Props.C20Lock', 'CoreBGP.Props.PathTieConn'], clauses=r'C05',
         rule='L0 differential with recover (PANIC is an output like any other) over every decoding entry point: the generators of C02/C08/C15/C16/C18/C19 plus oversize inputs (65535..70000 bytes with extreme length fields)'),
-    'C07': dict(title='Connection collision is resolved per RFC 4271 6.8, in every arrival order', live=True, lean=['CoreBGP.Props.C07', 'CoreBGP.Props.DecTieC07'],
+    'C07': dict(title='Connection collision is resolved per RFC 4271 6.8, in every arrival order', live=True, lean=['CoreBGP.Props.C07', 'CoreBGP.Props.DecTieC07', 'CoreBGP.Props.PathTieRun'],
         rule='live collision grid: local id <,=,> remote id x AS <,> x which connection completes its OPEN exchange first x Established-before-the-other, plus the forced collision window (manager held before the select while the other FSM requests Established / fails); every trace checked by L1 inclusion and all monitors'),
-    'C10': dict(title='Shutdown from any state is prompt, complete, race-free and leak-free', live=True, lean=['CoreBGP.Props.C10', 'CoreBGP.Props.C10Own', 'CoreBGP.Props.C20Lock', 'CoreBGP.Props.C20Life', 'CoreBGP.Props.PathTieC10', 'CoreBGP.Props.PathTieConn'], race_search=['C10', 'C11', 'C07', 'C04'], race_quick=['C10R'],
+    'C10': dict(title='Shutdown from any state is prompt, complete, race-free and leak-free', live=True, lean=['CoreBGP.Props.C10', 'CoreBGP.Props.C10Own', 'CoreBGP.Props.C20Lock', 'CoreBGP.Props.C20Life', 'CoreBGP.Props.PathTieC10', 'CoreBGP.Props.PathTieConn', 'CoreBGP.Props.PathTieRun'], race_search=['C10', 'C11', 'C07', 'C04'], race_quick=['C10R'],
         rule='Close / DeletePeer at every point of every connection script (idle, before Serve, OpenSent, OpenConfirm, Established, during collision, damped, with active writers, two peers, the forced dial-completed-while-closing window), both directions'),
     'C09': dict(title='State-dependent message handling follows RFC 4271 8.2.2 / RFC 6608', live=True, lean=['CoreBGP.Props.C09', 'CoreBGP.Props.C09Tie', 'CoreBGP.Props.C09Switch', 'CoreBGP.Props.PathTie', 'CoreBGP.Props.PathTieC09'],
         rule='exhaustive live table: state {OpenSent, OpenConfirm, Established} x stimulus {OPEN, UPDATE, KEEPALIVE, NOTIFICATION Cease/other/hold/undecodable, FIN, RST} x direction {out, in}; each trace must be reproduced by the L1 session model and pass all monitors'),
     'C03': dict(title='Inbound UPDATEs reach the handler exactly once, in order, byte-exact', live=True, lean=['CoreBGP.Props.C03', 'CoreBGP.Props.PathTieC03'],
         rule='live sessions with seeded random UPDATE/KEEPALIVE sequences (bodies 0..4077) cut into random TCP writes (1-byte writes, writes spanning several messages), handler recording arguments, handler veto at a random position; every trace reproduced by the L1 model (handler calls = sent bodies, in order) + aliasing monitor',
         assumptions=['"the delivered slice is not modified afterwards" is Go aliasing: monitored by re-comparing every delivered slice with a private copy at session end (partial clause)']),
-    'C04': dict(title='Outbound byte stream is whole well-formed messages; WriteUpdate contract', live=True, lean=['CoreBGP.Props.C04', 'CoreBGP.Props.C04L2', 'CoreBGP.Props.C04Tie', 'CoreBGP.Props.PathTieC04'],
+    'C04': dict(title='Outbound byte stream is whole well-formed messages; WriteUpdate contract', live=True, race_quick=['C04R'], lean=['CoreBGP.Props.C04', 'CoreBGP.Props.C04L2', 'CoreBGP.Props.C04Tie', 'CoreBGP.Props.PathTieC04'],
         rule='live sessions with 1..16 concurrent writer goroutines (tagged random bodies 0..4077), writes from inside OnEstablished and the handler, hold time 3 s so keepalives interleave, teardown by Cease / FIN / FSM error / Close at a random point, re-establishment, writes after OnClose; strict frame parser on every byte received + per-writer order / exactly-once / no-leak monitors',
         assumptions=['atomicity of one net.Conn.Write with respect to concurrent writes (Go netFD write lock) is assumed']),
     'C06': dict(title='Hold time negotiation, hold-timer expiry and keepalive cadence', live=True, lean=['CoreBGP.Props.C06', 'CoreBGP.Props.C02b', 'CoreBGP.Props.PathTieC06'],
